@@ -79,7 +79,8 @@ func (dss *dataStoreSet) save(l lane.Lane) error {
 	dss.mu.Unlock()
 	simAfterUnlock(&dss.mu, "dss.mu")
 
-	for index, ds := range dbs {
+	for _, index := range simKeys(dbs, func(a, b int) bool { return a < b }) {
+		ds := dbs[index]
 		dsc := ds.newDataStoreCommand()
 		err := dsc.save(l, dss.dataStoreFileName(index))
 		if err != nil {
